@@ -67,27 +67,27 @@ pub mod std { pub mod mem {
 pub struct WakerQueue(pub Arc<(Waker, Mutex<VecDeque<WakerInterest>>)>);
 
 impl WakerQueue {
-//@extract file=actix-server/src/waker_queue.rs item="impl Deref for WakerQueue / fn deref" ret=r props=C03 name=waker_queue::deref
+//@extract file=actix-server/src/waker_queue.rs item="impl Deref for WakerQueue / fn deref" ret=r props=C03,C05,C06,C08 name=waker_queue::deref
 //@spec
     ensures *r == self.0@,
 //@end
 
-//@extract file=actix-server/src/waker_queue.rs item="impl WakerQueue / fn wake" props=C03,C08 name=waker_queue::wake intended_panics trace_calls=push_back,wake closures=1
+//@extract file=actix-server/src/waker_queue.rs item="impl WakerQueue / fn wake" props=C03,C05,C06,C08 name=waker_queue::wake intended_panics trace_calls=push_back,wake closures=1
 //@spec
     requires true,
 //@insert fn_end=1
         // exactly one interest is queued and the accept poll is woken exactly once, AFTER the interest is in the queue   [C03]
-        assert(r24_trace == seq![0int, 1int]);   // [C03]
+        assert(r24_trace == seq![0int, 1int]);   // [C03,C05,C06,C08]
 //@end
 
-//@extract file=actix-server/src/waker_queue.rs item="impl WakerQueue / fn guard" ret=r props=C03 name=waker_queue::guard
+//@extract file=actix-server/src/waker_queue.rs item="impl WakerQueue / fn guard" ret=r props=C03,C05,C06,C08 name=waker_queue::guard
 //@spec
-    ensures r@ == self.0@.1.content(),   // [C03] the guard is the accept thread's view of THIS queue
+    ensures r@ == self.0@.1.content(),   // [C03,C05,C06,C08] the guard is the accept thread's view of THIS queue
 //@end
 
-//@extract file=actix-server/src/waker_queue.rs item="impl WakerQueue / fn reset" props=C03 name=waker_queue::reset
+//@extract file=actix-server/src/waker_queue.rs item="impl WakerQueue / fn reset" props=C03,C05,C06,C08 name=waker_queue::reset
 //@spec
-    ensures final(queue)@.len() == 0,   // [C03] the queue is emptied (and shrunk) — called only after every interest was handled
+    ensures final(queue)@.len() == 0,   // [C03,C05,C06,C08] the queue is emptied (and shrunk) — called only after every interest was handled
 //@end
 }
 } // verus!
